@@ -190,11 +190,9 @@ theorem fieldContent_linked {s : State} (hI : InvCore s) {h : Nat} {hd : Handle}
 /-- the name a field object reports is the name its group is linked under, in the frame that owns it -/
 theorem fieldName_link {s : State} (hI : InvCore s) {h : Nat} {hd : Handle} (hv : ensureValid s h = .ok hd) {k : Name}
     (hn : fieldName s h = .ok k) : ∃ g, hd.owner = some g ∧ ((g, k), hd.oid) ∈ s.links := by
-  obtain ⟨hd', g, hh, ho, hcol⟩ := fieldName_ok hI hn
+  obtain ⟨hd', g, hh, ho, hlk⟩ := fieldName_ok hI hn
   rw [(ensureValid_ok hv).1] at hh; cases hh
-  obtain ⟨hd2, h1, _, _, _, _, h6⟩ := hI.sameObj _ _ hcol
-  rw [(ensureValid_ok hv).1] at h1; cases h1
-  exact ⟨g, ho, h6⟩
+  exact ⟨g, ho, hlk⟩
 
 theorem fieldName_of_link {s : State} (hI : InvCore s) {h : Nat} {hd : Handle} (hv : ensureValid s h = .ok hd) {g : Nat} {k : Name}
     (hl : ((g, k), hd.oid) ∈ s.links) : fieldName s h = .ok k := by
